@@ -308,7 +308,14 @@ def do_sheet_job(job, state):
     al = Alpha(conc["U"], conc["P"], 1)
     msg = ""
     try:
-        cfg = Configuration(ini, US())
+        if conc.get("from_day") is not None or conc.get("to_day") is not None:
+            # date filters of the run are in force while the sheet is parsed: every row is still to be read (filters only hide rows in reports)
+            from .rp2api import day_to_date  # pylint: disable=import-outside-toplevel
+
+            cfg = Configuration(ini, US(), day_to_date(conc["from_day"] if conc.get("from_day") is not None else common.MIN_DAY),
+                                day_to_date(conc["to_day"] if conc.get("to_day") is not None else common.MAX_DAY))
+        else:
+            cfg = Configuration(ini, US())
         idata = parse_ods(cfg, K["asset"], open_ods(cfg, ods))
         obs = observe_input(idata, al)
     except Exception as exc:  # pylint: disable=broad-except
